@@ -1332,7 +1332,7 @@ def flex_direction(keyword):
 @property('flex-shrink')
 @single_token
 def flex_grow_shrink(token):
-    if token.type == 'number':
+    if token.type == 'number' and token.value >= 0:
         return token.value
 
 
